@@ -310,6 +310,40 @@ def banner(rng):
     return Pair('banner', lib, ref.banner(major, minor, software, comment))
 
 
+_CERTIFICATES = []
+
+
+def _certificates():
+    """DER certificates of the committed corpus (corpus/certs.jsonl): real leaf / intermediate certificates."""
+    if not _CERTIFICATES:
+        import json  # pylint: disable=import-outside-toplevel
+        import os  # pylint: disable=import-outside-toplevel
+        path = os.path.join(os.path.dirname(os.path.dirname(os.path.dirname(os.path.abspath(__file__)))), 'corpus', 'certs.jsonl')
+        with open(path) as handle:
+            for line in handle:
+                if line.strip():
+                    _CERTIFICATES.append(bytes.fromhex(json.loads(line)['hex']))
+    return _CERTIFICATES
+
+
+def x509_chain(rng):
+    """RFC 6187 section 2.1: string algorithm, uint32 count, the certificates (leaf first), uint32 count, the OCSP responses."""
+    key, _, _, _, alg, _, _ = _mods()
+    from cryptoparser.common.x509 import PublicKeyX509  # pylint: disable=import-outside-toplevel
+    algorithms = [member for member in alg.SshHostKeyAlgorithm
+                  if member.value.key_type == alg.SshHostKeyType.X509_CERTIFICATE_CHAIN]
+    algorithm = rng.choice(algorithms)
+    ders = _certificates()
+    chain = [rng.choice(ders) for _ in range(rng.choice([1, 2, 2, 3, 4]))]
+    responses = [rbytes(rng, pick_len(rng, 0, 300)) for _ in range(rng.choice([0, 0, 1, 2]))]
+    lib = key.SshX509CertificateChain(algorithm, PublicKeyX509.from_der(chain[0]),
+                                      [PublicKeyX509.from_der(der) for der in chain[1:]], [bytearray(response) for response in responses])
+    name = algorithm.value.code.encode('ascii')
+    wire = ref.string(name) + ref.u32(len(chain)) + b''.join(ref.string(der) for der in chain) + \
+        ref.u32(len(responses)) + b''.join(ref.string(response) for response in responses)
+    return Pair('x509-chain', lib, wire)
+
+
 def certificate_valued(rng):
     return certificate(rng, True)
 
@@ -320,7 +354,7 @@ def messages_and_records(rng):
 
 
 def generate(rng, count, failures=False):
-    makers = [messages_and_records, banner, host_key_pair, host_key_pair, certificate, certificate, certificate_valued]
+    makers = [messages_and_records, banner, host_key_pair, host_key_pair, certificate, certificate, certificate_valued, x509_chain]
     produced = 0
     while produced < count:
         for maker in makers:
